@@ -127,8 +127,9 @@ Proof.
   assert (H' : forall j0, In j0 idxs -> 0 <= j0 <= i) by (intros j0 Hj0; apply H; right; exact Hj0).
   destruct (rbi cs name j) as [v|]; cbn [bind]; [|reflexivity].
   destruct (is_none NO v); [apply IH; exact H'|].
-  destruct best as [b0|]; [|apply IH; exact H'].
-  destruct (if lowest then val_gt NO b0 v else val_lt NO b0 v) as [[|]|]; cbn [bind]; try reflexivity; apply IH; exact H'.
+  destruct best as [b0|].
+  - destruct (if lowest then val_gt NO b0 v else val_lt NO b0 v) as [[|]|]; cbn [bind]; try reflexivity; apply IH; exact H'.
+  - destruct (if lowest then val_gt NO v v else val_lt NO v v); cbn [bind]; [apply IH; exact H'|reflexivity].
 Qed.
 
 Lemma above_b_trunc a b j : 0 <= j <= i -> above_b NO cs' a b j = above_b NO cs a b j.
@@ -469,8 +470,9 @@ Proof.
   intros Hn. induction idxs as [|j idxs IH]; intros k best d; [reflexivity|]. cbn [bar_loop].
   rewrite (rbi_sim NO names cs1 cs2 Hsim n j Hn).
   destruct (reading_by_index NO cs2 n j) as [v|]; cbn [bind]; [|reflexivity].
-  destruct (is_none NO v); [apply IH|]. destruct best as [b0|]; [|apply IH].
-  destruct (if lowest then val_gt NO b0 v else val_lt NO b0 v) as [[|]|]; cbn [bind]; try reflexivity; apply IH.
+  destruct (is_none NO v); [apply IH|]. destruct best as [b0|].
+  - destruct (if lowest then val_gt NO b0 v else val_lt NO b0 v) as [[|]|]; cbn [bind]; try reflexivity; apply IH.
+  - destruct (if lowest then val_gt NO v v else val_lt NO v v); cbn [bind]; [apply IH|reflexivity].
 Qed.
 
 Lemma pattern_sim at_ lookback index :
